@@ -102,7 +102,8 @@ def run_targets(targets: List[str], tier: str, workers: int = 0) -> Dict[str, Di
 def results_for_property(prop: str, tier: str, only: Optional[str] = None,
                          replay_fn=None) -> Tuple[List[OblResult], Dict[str, Any]]:
     contracts = load_all_contracts()
-    targets = sorted(t for t, c in contracts.items() if prop in c.property_ids and not c.inline)
+    targets = sorted(t for t, c in contracts.items() if prop in c.property_ids and not c.inline
+                     and (tier == 'thorough' or c.tier == 'quick'))
     if only:
         targets = [t for t in targets if only in t] or targets
     raw = run_targets(targets, tier)
